@@ -32,6 +32,10 @@ def run(args):
             rep.ok()
     tot = rr.counts["deref"] + rr.counts["exits"] + rr.counts["forwards"] + rr.counts["noalias"] + rr.counts["reads"]
     rep.ok(max(0, tot - n_bad))
+    from . import rules_jet
+    nfj, noj = rules_jet.check(rep, "C05", {("manif::SE2TangentBase", "exp"), ("manif::SO3TangentBase", "exp"), ("manif::SO3Base", "log")}, obs="outputs")
+    rep.floor("jet_switch_functions", nfj, 3)
+    rep.floor("jet_jacobian_observables", noj, 8)
     rep.floor("functions_with_optional_outputs", len(opt_fns), 500)
     rep.floor("optional_output_params", rr.counts["opt_params"], 900)
     rep.floor("optional_derefs", rr.counts["deref"], 400)
@@ -48,6 +52,7 @@ def run(args):
         "R-GUARD: every *J / J-> / J.value() is dominated by a test that J is engaged",
         "R-BLOCK: constant block / corner / coefficient accesses on Jacobian outputs lie inside the output's static extent",
         "R-NOALIAS: operands of A.noalias() = E living in the same matrix as A are disjoint from A",
+        "C05.e R-JET: the Jacobian entries written on both sides of a small-angle switch (SE2Tangent::exp, SO3Tangent::exp, SO3::log) meet within 1e-7 (double) / 1e-3 (float) at the switch-over and have no negative-order term",
         "forwarding an optional (or a block of it) to a callee counts as the callee's proven write-set (modular summaries; *_impl helpers are summarised into their callers)",
     ]
     rep.units = rr.tags
